@@ -762,6 +762,7 @@ func checkC11(P *Prog, r *Result) {
 	}
 	// (d) precedence
 	P.checkPrecedence(r)
+	P.checkParamPresence(r)
 	_ = R
 }
 
@@ -1172,6 +1173,9 @@ func (P *Prog) checkPrecedence(r *Result) {
 	// every field of the pooled execution context, the values map included, is overwritten at acquisition (C07)
 	shareRule(P, r, checkC07, "C07/reinit", func(o Obligation) bool { return strings.Contains(o.Construct, "#zog/internals.ExecCtx.") }, "C11/context-values-per-call", 2)
 	shareRule(P, r, checkC17, "C17/not-typestate", func(o Obligation) bool { return strings.HasSuffix(o.Construct, "#shape") }, "C11/negated-code-from-builtin", 1)
+	// an issue that reaches a schema from outside (zhttp's invalid_json / invalid_form, a callback's own *ZogIssue) is
+	// given the type of the node it is reported at when it has none, and keeps the one it has (C12's rule)
+	shareRule(P, r, checkC12, "C12/unknown-error-shape", nil, "C11/foreign-issue-gets-type", 1)
 }
 
 // i18nChoice decides, on the paths of the i18n formatter (helpers and closures entered), which language map the
@@ -1332,4 +1336,67 @@ func (P *Prog) i18nChoice(fn *ssa.Function) []string {
 		problems = append(problems, "there is no fallback to the default language")
 	}
 	return uniqSorted(problems)
+}
+
+// checkParamPresence: whether a placeholder has a value is decided by the *presence* of its key in the issue's
+// Params, never by the value stored there. A formatter that reads `v := e.Params[key]` and treats `v == nil` as
+// "no such param" leaves `{{key}}` unresolved for a param whose value is nil (`Slice(...).Contains(nil)`,
+// `z.Params{"x": nil}`). Contradiction rule over the formatter packages (conf, i18n): no value read from a
+// ZogIssue's Params map is compared with nil.
+func (P *Prog) checkParamPresence(r *Result) {
+	R := P.roles
+	paramsF := structField(R.ZogIssue, "Params")
+	if paramsF == nil {
+		r.broken("the issue's Params field was not found")
+		return
+	}
+	fromParams := func(v ssa.Value) bool {
+		v = cv(v)
+		if ex, ok := v.(*ssa.Extract); ok {
+			v = cv(ex.Tuple)
+		}
+		var m ssa.Value
+		switch x := v.(type) {
+		case *ssa.Lookup:
+			m = x.X
+		case *ssa.Next:
+			if rg, ok := x.Iter.(*ssa.Range); ok {
+				m = rg.X
+			}
+		}
+		if m == nil {
+			return false
+		}
+		_, f := loadOfField(cv(m))
+		return f != nil && sameField(f, paramsF)
+	}
+	n := 0
+	for _, fn := range P.Funcs {
+		pp := funcPkgPath(fn)
+		if !strings.HasSuffix(pp, "/conf") && !strings.HasSuffix(pp, "/i18n") {
+			continue
+		}
+		reads := false
+		eachInstr(fn, func(_ *ssa.BasicBlock, _ int, in ssa.Instruction) {
+			if v, ok := in.(ssa.Value); ok && fromParams(v) {
+				reads = true
+			}
+			bo, ok := in.(*ssa.BinOp)
+			if !ok || (bo.Op != token.EQL && bo.Op != token.NEQ) {
+				return
+			}
+			x, _, isN := isNilCompare(bo)
+			if !isN || !fromParams(x) {
+				return
+			}
+			n++
+			r.bad("C11/param-presence", fname(fn)+"#nil-test", P.ipos(in), "a value read from the issue's Params is compared with nil to decide whether the param exists: a param whose value is nil (Contains(nil), Params{\"k\": nil}) reads as missing and its {{placeholder}} stays in the message")
+		})
+		if reads {
+			n++
+			r.sawFunc(fname(fn))
+			r.ok("C11/param-presence", fname(fn), P.pos(fn.Pos()), "params are substituted by presence of their key; no value read from Params is tested against nil")
+		}
+	}
+	r.floor("C11/param-presence", 1)
 }
